@@ -22,6 +22,7 @@ C10 driver. Line kinds
    caller overwrites a cell · `sp <hex name> <bufs a.b|-> <links sc@b+sc@-|->` Start · `sa <s> <b>` · `ev <s> <hex> <bufs>` ·
    `re <s> <hex msg|-> <bufs>` · `ln <s> <sc> <b|->` · `st <s> <code> <hex>` · `nm <s> <hex>` · `end <s>`;
    per-op flag: every snapshot exported so far, re-read now, still equals what OnEnd saw
+`optsrace <gen> <spare> <shared 0|1> <goroutines> => race|norace|race:other|err mis|same`   finding F45, fixed by 30d2a20: only `norace same` is acceptable
 `attrrace <gen> <n attrs> <dup keys> <concurrent Attributes() 0|1> => race | norace | race:other | err`
    known finding F36, observed in a race-instrumented child process (Spec.F36_applies / Spec.attrRaceVerdict)
 -/
@@ -295,14 +296,23 @@ def renderAExp (e : AExp) : String := s!"{e.idx} {if e.imm then 1 else 0} {rende
 with what it showed when it was exported -/
 def aliasModel (lim : Limits) (ops : List Alias.AOp) : List Bool × List AExp :=
   let r := ops.foldl (fun (acc : Alias.World × List Snap × List Bool) op =>
-    let w := Alias.step Alias.applyEvent lim acc.1 op
+    let w := Alias.step Alias.cur lim acc.1 op
     let atE := acc.2.1 ++ (w.exported.drop acc.2.1.length).map fun e => Alias.snapView w.heap e.2
     let same := (w.exported.zip atE).all fun (e, sn) => Alias.snapView w.heap e.2 == sn
     (w, atE, acc.2.2 ++ [same])) (({} : Alias.World), [], [])
   (r.2.2, (r.1.exported.zip r.2.1).map fun (e, sn) =>
     { idx := e.1, imm := Alias.snapView r.1.heap e.2 == sn, snap := sn })
 
-def stripLinkAttrs (s : Snap) : Snap := { s with links := s.links.map fun l => { l with attrs := [] } }
+/-- coverage tag: the caller writes to a slice it handed to AddLink / WithLinks earlier (finding F44, fixed by 48fa451) -/
+def linkBufWritten : List Alias.AOp → Bool
+  | [] => false
+  | op :: rest =>
+    (match op with
+     | .addLink _ _ (some b) => rest.any fun | .wr b' _ _ => b' == b | _ => false
+     | .start _ _ links => links.any fun l => match l.2 with
+        | some b => rest.any fun | .wr b' _ _ => b' == b | _ => false
+        | none => false
+     | _ => false) || linkBufWritten rest
 
 def aliasLine (ls : List String) (rest obs : List String) : Option Verdict := do
   let [a, b, c, d, e, f] := ls | none
@@ -322,8 +332,6 @@ def aliasLine (ls : List String) (rest obs : List String) : Option Verdict := do
   let bad := if valueOK then bad else "arguments_copied_at_call" :: bad
   let bad := if exps.all (fun x => C04.Spec.exportWellFormed lim x.snap) then bad else "export-well-formed" :: bad
   let bad := if flags.all id && exps.all (·.imm) then bad else "snapshot_immutable" :: bad
-  let linkKnown := Alias.linkWriteAfterUse ops && exps.map (·.idx) == v.exported.map (·.1) &&
-    exps.map (stripLinkAttrs ·.snap) == v.exported.map (stripLinkAttrs ·.2) && flags.length == ops.length
   let isExp (i : Nat) : Bool := v.exported.any (·.1 == i)
   -- non-trivial: after some span was exported, a later op passes or overwrites a caller buffer
   let firstEnd := ops.findIdx? fun | .end_ _ => true | _ => false
@@ -354,11 +362,11 @@ def aliasLine (ls : List String) (rest obs : List String) : Option Verdict := do
     (if ops.any (fun | .addEvent _ _ (_ :: _ :: _) => true | .recordError _ _ (_ :: _ :: _) => true | _ => false) then ["two-attribute-options"] else []) ++
     (if ops.any (fun | .addLink _ _ (some _) => true | .start _ _ ls => ls.any (·.2.isSome) | _ => false) then ["link-buffer"] else []) ++
     (if ops.any (fun | .start _ (_ :: _) _ => true | _ => false) then ["start-attributes"] else []) ++
-    (if Alias.linkWriteAfterUse ops then ["link-buffer-written"] else []) ++
+    (if linkBufWritten ops then ["link-buffer-written"] else []) ++
     (if (ops.filter fun | .start _ _ _ => true | _ => false).length ≥ 2 then ["several-spans"] else []) ++
     (if ops.any (fun | .end_ i => !isExp i | _ => false) then ["end-unknown-span"] else [])
   pure { agree := agree,
-         spec := if bad.isEmpty then "ok" else if linkKnown then "KNOWN:F44" else "FAIL",
+         spec := if bad.isEmpty then "ok" else "FAIL",
          nontrivial := later.any usesBuf,
          branches := if tags.isEmpty then "-" else ",".intercalate tags,
          model := if agree && bad.isEmpty then "="
@@ -383,6 +391,15 @@ def stepLine (_ : Unit) (toks : List String) : Unit × Option Verdict :=
       ((), some { agree := true, spec := spec, nontrivial := applies,
                   branches := (if applies then "f36-applies" else "control") ++ "," ++ (if o == "norace" then "norace" else "race"),
                   model := if applies then "race-possible" else "norace" })
+    | _, _, _ => ((), none)
+  | ["optsrace", _, spare, shared, g] =>
+    match spare.toNat?, g.toNat?, obs with
+    | some spare, some g, [o, mis] =>
+      let applies := Spec.F45_applies spare (shared == "1") g
+      let spec := if Spec.optsRaceOK o mis then "ok" else "FAIL"
+      ((), some { agree := true, spec := spec, nontrivial := applies,
+                  branches := (if applies then "f45-applies" else "control") ++ "," ++ o ++ "," ++ mis,
+                  model := "norace same" })
     | _, _, _ => ((), none)
   | _ => ((), none)
 
